@@ -178,7 +178,7 @@ func ruleR02(c *Ctx) {
 		for _, mname := range []string{"Search", "Delete", "Insert"} {
 			u := c.m.effectiveMethod(tk, mname)
 			// a helper of the same tree that carries the loop (Insert → insert): the events are there
-			if au := c.m.algorithmUnit(tk, mname); au != nil && au != u && au.Recv == tk.Name {
+			if au := c.m.algorithmUnit(tk, mname); au != nil && au != u && (au.Recv == tk.Name || (au.Recv == "" && c.takesSlot(au))) {
 				u = au
 			}
 			if u == nil {
@@ -198,12 +198,87 @@ func ruleR02(c *Ctx) {
 			g := c.m.cfgOf(u)
 			guards := c.equalGuards(u)
 			nEvents := 0
+			// success flags: boolean locals that are only ever assigned constants (deleted := false …
+			// deleted = true … if deleted { t.size-- }; return deleted). What happens under the flag
+			// happens after one of the places that set it
+			flagSites := map[*types.Var][]ast.Node{}
+			{
+				bad := map[*types.Var]bool{}
+				ast.Inspect(u.Body, func(n ast.Node) bool {
+					as, ok := n.(*ast.AssignStmt)
+					if !ok || len(as.Lhs) != len(as.Rhs) {
+						return true
+					}
+					for i, l := range as.Lhs {
+						v := identVar(info, l)
+						if v == nil {
+							continue
+						}
+						if b, isB := v.Type().Underlying().(*types.Basic); !isB || b.Kind() != types.Bool {
+							continue
+						}
+						switch {
+						case isConstBool(info, as.Rhs[i], true):
+							flagSites[v] = append(flagSites[v], as)
+						case isConstBool(info, as.Rhs[i], false):
+							if _, has := flagSites[v]; !has {
+								flagSites[v] = nil
+							}
+						default:
+							bad[v] = true
+						}
+					}
+					return true
+				})
+				for v := range bad {
+					delete(flagSites, v)
+				}
+			}
+			allGuards := guardsOf(info, g)
+			underFlag := func(b *cfg.Block) *types.Var {
+				for _, gd := range allGuards {
+					if !gd.atom.val {
+						continue
+					}
+					if v := identVar(info, ast.Unparen(gd.atom.e)); v != nil {
+						if _, isFlag := flagSites[v]; isFlag && edgeDominates(g, gd.b, gd.succ, b) {
+							return v
+						}
+					}
+				}
+				return nil
+			}
 			// wantLeaf == nil: any leaf variable accepted
-			check := func(kind string, node ast.Node, wantLeaf *types.Var) {
-				nEvents++
+			var check func(kind string, node ast.Node, wantLeaf *types.Var)
+			quiet := false // inner checks of the sites of a flag: no report, result in lastOK
+			lastOK := false
+			check = func(kind string, node ast.Node, wantLeaf *types.Var) {
+				if !quiet {
+					nEvents++
+				}
 				key := fmt.Sprintf("%s.%s %s", tk.Name, mname, kind)
 				b, _ := blockOf(g, node)
 				if b == nil || !b.Live {
+					lastOK = true
+					return
+				}
+				if fv := underFlag(b); fv != nil && !quiet {
+					// every place that sets the flag must itself follow the comparison
+					all := len(flagSites[fv]) > 0
+					quiet = true
+					for _, site := range flagSites[fv] {
+						lastOK = false
+						check("flag", site, wantLeaf)
+						if !lastOK {
+							all = false
+						}
+					}
+					quiet = false
+					if all {
+						c.r.ok("R02", key, c.m.pos(node.Pos()), fmt.Sprintf("runs only when the flag %s is set, and each of the %d places that set it follows the successful comparison", fv.Name(), len(flagSites[fv])), props...)
+						return
+					}
+					c.r.bad("R02", key, c.m.pos(node.Pos()), fmt.Sprintf("success without the authoritative full-key comparison: it runs when the flag %s is set, and a place that sets it does not follow the comparison", fv.Name()), props...)
 					return
 				}
 				var why string
@@ -231,14 +306,20 @@ func ruleR02(c *Ctx) {
 						why = "compared variable is reassigned after the comparison"
 						continue
 					}
-					c.r.ok("R02", key, c.m.pos(node.Pos()),
-						fmt.Sprintf("dominated by the successful comparison of the stored %s() with %s at %s", eg.form, eg.probe.Name(), c.m.pos(eg.g.atom.e.Pos())), props...)
+					lastOK = true
+					if !quiet {
+						c.r.ok("R02", key, c.m.pos(node.Pos()),
+							fmt.Sprintf("dominated by the successful comparison of the stored %s() with %s at %s", eg.form, eg.probe.Name(), c.m.pos(eg.g.atom.e.Pos())), props...)
+					}
 					return
 				}
 				if why == "" {
 					why = "no bytes.Equal(leaf key, probe key) test in this function"
 				}
-				c.r.bad("R02", key, c.m.pos(node.Pos()), "success without the authoritative full-key comparison: "+why, props...)
+				lastOK = false
+				if !quiet {
+					c.r.bad("R02", key, c.m.pos(node.Pos()), "success without the authoritative full-key comparison: "+why, props...)
+				}
 			}
 			sizeField := c.sizeField(tk)
 			for _, b := range g.Blocks {
@@ -270,6 +351,30 @@ func ruleR02(c *Ctx) {
 						if mname == "Delete" && len(x.Results) == 1 && isConstBool(info, x.Results[0], true) {
 							check("return-true", x, nil)
 						}
+						// return deleted: true exactly when a place that sets the flag was passed
+						if mname == "Delete" && len(x.Results) == 1 {
+							if fv := identVar(info, ast.Unparen(x.Results[0])); fv != nil {
+								if sites, isFlag := flagSites[fv]; isFlag {
+									nEvents++
+									all := len(sites) > 0
+									quiet = true
+									for _, site := range sites {
+										lastOK = false
+										check("flag", site, nil)
+										if !lastOK {
+											all = false
+										}
+									}
+									quiet = false
+									key := fmt.Sprintf("%s.%s return-flag", tk.Name, mname)
+									if all {
+										c.r.ok("R02", key, c.m.pos(x.Pos()), fmt.Sprintf("returns the flag %s, which is set only after the successful comparison (%d places)", fv.Name(), len(sites)), props...)
+									} else {
+										c.r.bad("R02", key, c.m.pos(x.Pos()), fmt.Sprintf("success without the authoritative full-key comparison: the result is the flag %s, and a place that sets it does not follow the comparison", fv.Name()), props...)
+									}
+								}
+							}
+						}
 					case *ast.IncDecStmt:
 						if mname == "Delete" && x.Tok == token.DEC && isFieldOf(info, x.X, sizeField) {
 							check("size--", x, nil)
@@ -277,6 +382,13 @@ func ruleR02(c *Ctx) {
 					case *ast.AssignStmt:
 						if mname == "Delete" && len(x.Lhs) == 1 && c.isEmptyRefLit(x.Rhs[0]) {
 							check("unlink-slot", x, nil)
+						}
+						if mname == "Delete" && len(x.Lhs) == 1 && isConstBool(info, x.Rhs[0], true) {
+							if fv := identVar(info, x.Lhs[0]); fv != nil {
+								if _, isFlag := flagSites[fv]; isFlag {
+									check("sets the success flag "+fv.Name(), x, nil)
+								}
+							}
 						}
 						if mname == "Insert" && len(x.Lhs) == 1 {
 							if sel, ok := ast.Unparen(x.Lhs[0]).(*ast.SelectorExpr); ok && sel.Sel.Name == "value" {
